@@ -12,7 +12,7 @@ FAILS = ["error", "rstack_poweron", "silent", "lost_exc", "eof", "close"]
 POINTS = ["idle", "inflight", "awaiting", "queued", "resetting", "abandoned"]
 
 
-def scenario(n, fail, point, attached, batched, second=None):
+def scenario(n, fail, point, attached, batched, second=None, history=None):
     import bellows.ezsp.protocol as proto
     import bellows.ash as ash
 
@@ -23,9 +23,33 @@ def scenario(n, fail, point, attached, batched, second=None):
         async def go():
             await w.ezsp.connect(use_thread=False)
             await w.ezsp.startup_reset()
+            loop = asyncio.get_running_loop()
+            if history == "churn":
+                # earlier life of the same EZSP object: a listener registered and removed again, a scan that registers its own
+                # temporary callback and ends later; the application attaches in between.  None of this may detach the application.
+                import bellows.types as t
+
+                lid = w.ezsp.add_callback(lambda name, args: None)
+
+                async def scan():
+                    try:
+                        await w.ezsp.startScan(t.EzspNetworkScanType.ENERGY_SCAN, 0x07FFF800, 2)
+                        out["results"]["scan"] = ("ok", 0.0)
+                    except BaseException as e:  # noqa: BLE001
+                        out["results"]["scan"] = (type(e).__name__, 0.0)
+
+                scan_task = loop.create_task(scan())
+                await asyncio.sleep(0.05)
+                w.ezsp.remove_callback(lid)
             if attached:
                 w.ezsp.add_callback(lambda name, args: out["requests"].append((name, args)) if name == "_reset_controller_application" else None)
-            loop = asyncio.get_running_loop()
+            if history == "churn":
+                w.ncp.callback("scanCompleteHandler", channel=0, status=0)
+                await asyncio.sleep(0.05)
+                if not scan_task.done():
+                    scan_task.cancel()
+                await asyncio.sleep(0.01)
+                out["results"].pop("scan", None)
 
             async def call(tag, coro):
                 t0 = loop.time()
@@ -199,6 +223,12 @@ def cases(ctx):
                         if batched and fail in ("silent", "close"):
                             continue
                         cs.append((n, fail, point, attached, batched))
+    # the same failures after an earlier life of the EZSP object (callbacks registered and removed, a scan with its own temporary
+    # callback running while the application attaches)
+    for n in ([8] if ctx.tier == "quick" else [4, 8, 14]):
+        for fail in ("error", "rstack_poweron", "silent", "lost_exc", "eof"):
+            for point in ("idle", "awaiting"):
+                cs.append((n, fail, point, True, False, None, "churn"))
     # a first failure while no application is attached, then an application attaches and the NCP fails again
     for n in ([8] if ctx.tier == "quick" else [4, 8, 14]):
         for fail in ("error", "rstack_poweron", "silent"):
@@ -232,9 +262,14 @@ def run(ctx):
         ctx.count(f"point:{point}")
         for tag, (res, dt) in o.get("results", {}).items():
             ctx.count(f"call_outcome:{res}")
+        history = c[6] if len(c) > 6 else None
         bad = oracle(fail, point, attached, o, second)
+        if bad and history:
+            bad += " (after callbacks were registered and removed and a scan's temporary callback ended: the application must stay attached)"
         if bad:
-            ctx.violation(bad, {"kind": "failure-handling", "fail": fail, "point": point}, {"n": n, "fail": fail, "point": point, "attached": attached, "batched": batched, "second": second})
+            ctx.violation(bad, {"kind": "failure-handling", "fail": fail, "point": point}, {"n": n, "fail": fail, "point": point, "attached": attached, "batched": batched, "second": second, "history": history})
+        if history:
+            ctx.count(f"history:{history}")
         if second:
             ctx.count(f"second:{second}")
             continue
@@ -265,7 +300,7 @@ search = run
 def replay(ctx, obj):
     logging.disable(logging.CRITICAL)
     r = obj["replay"]
-    o = scenario(r["n"], r["fail"], r["point"], r["attached"], r["batched"], r.get("second"))
+    o = scenario(r["n"], r["fail"], r["point"], r["attached"], r["batched"], r.get("second"), r.get("history"))
     bad = oracle(r["fail"], r["point"], r["attached"], o, r.get("second"))
     print(f"replay {r}: requests={len(o['requests'])} results={o.get('results')} after={o.get('after')}: {'FAILS: ' + bad if bad else 'ok'}")
     if bad:
